@@ -255,6 +255,8 @@ def work(arg):
         name, how = spec
         for target in ('string', 'file'):
             extra_kw = dict(rmse=0.0, prange=(0.0, 0.9), lrange=(0.0, 3.5)) if how == 'zero-fields' else ({'branch': 'des'} if how == 'desorption-branch' else {})
+            if how == 'unbounded-ranges':       # a hand-made model valid everywhere
+                extra_kw = dict(prange=(0.0, float('inf')), lrange=(float('-inf'), float('inf')))
             mk = core.call(g.mk_model, cfg, name, meta_small, fitted_dr=(how == 'fitted'),
                            params=({'K': 3.456789e-06, 'n_m': 4.5123456789} if how == 'small-parameters' else None), **extra_kw)
             if not mk.ok:
@@ -276,7 +278,7 @@ def run(ctx):
     for ci, cfg in enumerate(cfgs):
         for spec in (shapes if (not ctx.quick or ci in (0, 4)) else shapes[ci % 5::5]):
             jobs.append(('point', cfg, spec, ctx.scale))
-        for spec in g.ZERO_SHAPES + g.EARLY_SHAPES + g.WORDS_SHAPES + g.TEXTNUM_SHAPES:
+        for spec in g.ZERO_SHAPES + g.EARLY_SHAPES + g.WORDS_SHAPES + g.TEXTNUM_SHAPES + g.INF_SHAPES:
             if not ctx.quick or ci in (0, 3, 5) or spec[0] == 4:
                 jobs.append(('point', cfg, spec, ctx.scale))
         for spec in ((4, 'guessable', 'numeric'), (7, 'user-alternating', 'both')):
@@ -296,6 +298,8 @@ def run(ctx):
                 jobs.append(('model', cfg, (name, 'small-parameters'), ctx.scale))
             if name in ('Langmuir', 'Henry', 'Toth'):
                 jobs.append(('model', cfg, (name, 'zero-fields'), ctx.scale))
+            if name in ('Langmuir', 'Henry'):
+                jobs.append(('model', cfg, (name, 'unbounded-ranges'), ctx.scale))
             if name in ('Langmuir', 'DR', 'Virial'):
                 jobs.append(('model', cfg, (name, 'desorption-branch'), ctx.scale))    # a model describing the desorption branch      # a fit error / range limit of exactly 0 is a value, not "missing"
         jobs.append(('gapped-index', cfg, (7, 'guessable', 'numeric'), ctx.scale))
